@@ -117,6 +117,10 @@ struct Globals {
   uint64_t starve_from = 0, starve_to = 0;
   bool faults = false;
   uint32_t spurious_den = 200;
+  // extra scheduling point *after* every store / successful RMW / unlock / wake:
+  // lets a thread be delayed between publishing something and its next plain
+  // access (use-after-publish bugs); drawn per run
+  int post_pts = 0;
   uint32_t jump_den = 0;
   Config pub{};
   // replay
@@ -146,7 +150,7 @@ inline uint64_t dkey(int tid, int op, uint32_t k) {
 enum PointKind : int {
   P_LOAD = 1, P_STORE, P_RMW, P_FENCE, P_FUTEX_WAIT, P_FUTEX_WAKE, P_MUTEX,
   P_COND, P_SLEEP, P_YIELD, P_CLOCK, P_CREATE, P_JOIN, P_EXIT, P_OP, P_PLAIN,
-  P_GUARD, P_IO, P_USER,
+  P_GUARD, P_IO, P_USER, P_POST,
 };
 void point(int kind, uintptr_t addr);          // ordinary scheduling point
 void block(State st, uintptr_t addr, int64_t deadline, int wait_tid = -1);
